@@ -10,6 +10,7 @@ import (
 	"fmt"
 	"math"
 	"os"
+	"strings"
 	"time"
 
 	"github.com/tuneinsight/lattigo/v6/ring"
@@ -79,10 +80,15 @@ func plans(tier string, primary, first bool) []plan {
 }
 
 // initsFor: which initial register files a plan explores on a configuration.
-func initsFor(tier string, primary bool, pl string) []int {
+func initsFor(tier string, primary bool, pl string, cfg string) []int {
 	switch {
+	case tier == "quick" && !primary && strings.Contains(cfg, "-slots"):
+		if pl == "L2" {
+			return []int{0} // quick: the sparse-packing configurations vary the packing, not the register files
+		}
+		return nil
 	case tier == "quick" && pl == "L3ccc" && primary:
-		return []int{0, 2, 3}
+		return []int{0, 2}
 	case tier == "quick" && pl == "L3ccc":
 		return nil // quick: length 3 on the primary configurations only
 	case tier == "quick" && primary:
@@ -163,10 +169,63 @@ func scenarios(tier string) []engine.Scenario {
 				runProgram(c, e, name, init, first, nil)
 			}})
 		}
+		// receivers and refusals: every out-of-place operation into receivers pre-allocated at the result level, one
+		// above, the input level, level 0 and (degree 2, stale) at the result level, from register files at every
+		// level, alone and after one preparing instruction; plus one leaf per documented refusal next to its nearest
+		// accepted neighbour (operand type, missing keys, aliasing, minScale, levels).
+		{
+			var recv []instr
+			for _, d := range []string{"out@res", "out@res1", "out@in", "out@zero", "reused@res"} {
+				for _, op := range binaryOps {
+					for _, k := range []string{"ct-other", "pt-eq", "pt-low-level", "complex128-gint", "complex128-frac", "vec-complex128"} {
+						recv = append(recv, instr{op, k, d, false})
+					}
+				}
+				recv = append(recv, instr{"Relinearize", "-", d, false}, instr{"Rotate", "k1", d, false}, instr{"Conjugate", "-", d, false},
+					instr{"Rescale", "-", d, false}, instr{"RescaleTo", "min-default", d, false}, instr{"RescaleTo", "min-1.5xdefault", d, false})
+			}
+			refusals := []instr{{"Rotate", "k5-nokey", "inplace", false}, {"Rotate", "k1", "nokeys", false}, {"Rotate", "k1", "inplace", false},
+				{"MulRelin", "ct-other", "nokeys", false}, {"Relinearize", "-", "nokeys", false},
+				{"RescaleTo", "min-zero", "inplace", false}, {"RescaleTo", "min-zero", "out", false},
+				{"MulThenAddAlias", "ct", "inplace", false}, {"MulThenAddAlias", "frac", "inplace", false}, {"MulThenAddAlias", "vec", "inplace", false}, {"MulThenAddAlias", "gint", "inplace", false}}
+			for _, k := range []string{"Add/opOut-metadata-nil", "Add/op1-metadata-nil", "Mul/opOut-metadata-nil", "Rescale/opOut-metadata-nil", "RescaleTo/opOut-metadata-nil",
+				"Add/op0-flagged-not-NTT", "Mul/op0-flagged-not-NTT", "Add/plaintext-not-batched", "RescaleTo/ciphertext-scale-zero",
+				"MulThenAdd/op1-is-opOut", "MulRelinThenAdd/op1-is-opOut", "MulRelinThenAdd/op0-is-opOut"} {
+				refusals = append(refusals, instr{"Refusal", k, "-", false})
+			}
+			for _, op := range append(append([]string{}, binaryOps...), accOps...) {
+				d := "inplace"
+				if op == "MulThenAdd" || op == "MulRelinThenAdd" {
+					d = "acc"
+				}
+				refusals = append(refusals, instr{op, "invalid-type", d, false}, instr{op, "int", d, false})
+			}
+			all := append(append([]instr{}, recv...), refusals...)
+			prep := []instr{{"Mul", "ct-other", "inplace", true}, {"Mul", "complex128-frac", "inplace", true}, {"MulRelin", "ct-other", "inplace", true},
+				{"Rescale", "-", "inplace", true}, {"DropLevel", "1", "inplace", true}, {"Swap", "-", "-", true}}
+			inits := []int{0, 2, 3, 5, 6}
+			for _, two := range []bool{false, true} {
+				two := two
+				name := cf.Name + "/receivers-1"
+				if two {
+					name = cf.Name + "/receivers-2"
+				}
+				scs = append(scs, engine.Scenario{Name: name, Bound: -1, Fn: func(c *engine.Chooser) {
+					e := get(c)
+					c.Cover("plan", "receivers")
+					init := inits[c.Choose(len(inits), "init")]
+					if two {
+						runProgram(c, e, name, init, prep, [][]instr{all})
+					} else {
+						runProgram(c, e, name, init, all, nil)
+					}
+				}})
+			}
+		}
 		primary := ci == 0 || cf.Name == "std4-s80-P2" || cf.Name == "ci4-s45-P1"
 		for _, pl := range plans(tier, primary, ci == 0) {
 			pl := pl
-			for _, init := range initsFor(tier, primary, pl.name) {
+			for _, init := range initsFor(tier, primary, pl.name, cf.Name) {
 				init := init
 				for lo := 0; lo < len(pl.pos[0]); lo += chunk {
 					hi := lo + chunk
@@ -254,7 +313,7 @@ func main() {
 				"auxiliary-primes=0", "auxiliary-primes=1", "auxiliary-primes=2", "packing=sparse", "packing=full", "slots=1", "slots=2", "slots=4", "slots=8", "slots=16",
 				"scales=equal", "scales=ratio-integer", "scales=ratio-non-integer", "scalar-path=gaussian-integer", "scalar-path=non-integer",
 				"mta-scale-up=integer-ratio", "mta-scale-up=equal", "mta-const=equal-scales", "mta-const=acc-scale-larger",
-				"oracle=tight", "decoder=reused", "plan=spine", "plan=boundary-scalars", "kind=uint64-2p63", "kind=uint-2p64m1", "kind=int64-min", "kind=bigInt-2p64p1", "kind=float64-2p63", "kind=x2p63", "dest=inplace", "dest=new", "dest=out", "dest=acc", "dest=reused", "setscale=non-integer-ratio", "rescaleto=levels-0", "rescaleto=levels-1"}
+				"oracle=tight", "decoder=reused", "plan=spine", "plan=boundary-scalars", "plan=receivers", "receiver=lowers-the-level", "dest=out@res", "dest=out@zero", "dest=reused@res", "dest=nokeys", "kind=invalid-type", "op=MulThenAddAlias", "op=Refusal", "kind=uint64-2p63", "kind=uint-2p64m1", "kind=int64-min", "kind=bigInt-2p64p1", "kind=float64-2p63", "kind=x2p63", "dest=inplace", "dest=new", "dest=out", "dest=acc", "dest=reused", "setscale=non-integer-ratio", "rescaleto=levels-0", "rescaleto=levels-1"}
 			seen := map[string]bool{}
 			for _, i := range alphabet() {
 				if !seen["op="+i.op] {
